@@ -380,6 +380,25 @@ func genReq(rg *rand.Rand, f *wh.Funded) req {
 		q.strategy, q.sname = wallet.CoinSelectionRandom, "random"
 	}
 	q.kind = []string{"create-dry", "create", "send", "send", "send-picked", "send-picked-ineligible", "fundpsbt"}[rg.Intn(7)]
+	// half of the deliberately ineligible picks aim at one reason: a coin that is
+	// locked / leased / already spent is requested from ITS OWN scope and account,
+	// so that this, and not a scope or account mismatch, is what makes it ineligible
+	var aimed *wh.Coin
+	if q.kind == "send-picked-ineligible" && rg.Intn(2) == 0 {
+		want := rg.Intn(3)
+		for _, c := range f.SortedCoins() {
+			if c.Height == -1 {
+				continue
+			}
+			if (want == 0 && c.Locked && c.SpentBy == "") || (want == 1 && c.Leased && c.SpentBy == "" && !c.Locked) || (want == 2 && c.SpentBy != "") {
+				aimed = c
+			}
+		}
+		if aimed != nil {
+			sc := aimed.Scope
+			q.scope, q.acct, q.minconf = &sc, aimed.Acct, 0
+		}
+	}
 	// eligible coins for this request per the ledger, largest first
 	var elig, inelig []*wh.Coin
 	for _, c := range f.SortedCoins() {
@@ -428,6 +447,9 @@ func genReq(rg *rand.Rand, f *wh.Funded) req {
 			break
 		}
 		bad := inelig[rg.Intn(len(inelig))]
+		if aimed != nil && f.Ineligible(aimed, q.scope, q.acct, q.minconf) != "" {
+			bad = aimed
+		}
 		q.why = f.Ineligible(bad, q.scope, q.acct, q.minconf)
 		q.picks = append(q.picks, bad.Op)
 		if len(elig) > 0 && rg.Intn(2) == 0 {
@@ -453,7 +475,7 @@ func main() {
 	r.Rule("complete wallets funded over the fake backend on all four address types and two accounts via confirmed, unconfirmed, coinbase (immature by 0..many blocks) and reorged-out receipts, with random LockOutpoint / LeaseOutput; then 30..120 requests per wallet mixing CreateSimpleTx (dry run and real), SendOutputs, SendOutputsWithInput with eligible picks and with a deliberately INELIGIBLE pick of each kind (wrong account, wrong scope, already spent, locked, leased, too few confirmations, immature coinbase), FundPsbt without inputs, both strategies, minconf 0..3 and (1 in 4) coinbase maturity + 0..4, three fee rates, amounts random or placed so that the k largest eligible coins cover amount + first fee guess but not the real fee (forces re-selection), interleaved with mining of the published transactions and with rebroadcast passes of the still-unconfirmed ones (backend answers 'already in mempool'), and with REPLACEMENTS: a conflicting version of one of the wallet's unconfirmed transactions (spending one of its inputs, paying the wallet) replaces it in the node's mempool, the wallet re-offers the original and is refused; the shared input must stay unavailable. Oracle = harness ledger of everything it delivered and everything the wallet published: every input must be eligible for that request at that moment, no input twice, requested output present, explicit selections respected / ineligible ones refused, dry runs leave the money state unchanged, every input of a signed result executes in a fresh txscript engine with StandardVerifyFlags against prevouts from the ledger. Final concurrent phase: 8 goroutines x 3 sends; the published transactions must not share an input. Non-trivial = wallet that produced at least one transaction; distinct = distinct wallets.")
 	r.Trusted("txscript.Engine (StandardVerifyFlags)", "waddrmgr.AddrAccount to classify change outputs", "internal/fakechain")
 	r.Assume("FundPsbt with caller-supplied inputs is the documented external-coin-selection path and is not asserted here", "coin eligibility uses the backend tip as the current height, as the wallet does")
-	dir, _ := os.MkdirTemp("", "c06")
+	dir := r.TempDir("c06")
 	defer os.RemoveAll(dir)
 	r.Parallel("wallet", r.N(24, 600), evid.Workers(), func(i int, cs int64) { runWallet(r, dir, cs) })
 	r.Require("transactions-created", 150)
